@@ -20,7 +20,7 @@ open Pypyr Pypyr.Flow
 /-- `Pipeline.new_pipe_and_args(...)`: how the child pipeline is to be run -/
 def pypeInst (a : PypeArgs) : PipeInst :=
   { name := a.name, groups := a.groups, success := a.success, failure := a.failure,
-    parseInput := !a.skipParse, contextArgs := a.pipeArg }
+    parseInput := !a.skipParse, contextArgs := a.pipeArg, groupsBad := a.groupsBad }
 
 /-- `if args: context.update(args)` (shared context) -/
 def mergeArgs (a : PypeArgs) (s : St) : St :=
@@ -157,9 +157,30 @@ theorem runPipeline_ne_stopPipeline (fuel : Nat) (prog : Program) (pi : PipeInst
     cases hp : prog.find? pi.name with
     | none => rw [runPipeline_notFound n prog pi s hp, raiseNew_snd]; simp
     | some pd =>
-      rw [runPipeline_eq n prog pi pd s hp]
-      simp only []
       have hprep := prepareContext_result pd pi { s with stack := pi.name :: s.stack }
+      by_cases hgb : pi.groupsBad = true
+      · rw [runPipeline_groupsBad n prog pi pd s hp hgb]
+        simp only []
+        generalize prepareContext pd pi { s with stack := pi.name :: s.stack } = p at hprep
+        obtain ⟨s1, r⟩ := p
+        cases r with
+        | err e h =>
+          simp only []
+          generalize runFailureGroup n prog pi.name pi.failure s1 = q
+          obtain ⟨s2, r2⟩ := q
+          cases r2 <;> simp
+        | ok =>
+          simp only []
+          by_cases hf0 : hasFailureGroup pi.failure = true
+          · simp only [hf0, if_true]
+            generalize runFailureGroup n prog pi.name pi.failure _ = q
+            obtain ⟨s2, r2⟩ := q
+            cases r2 <;> simp
+          · simp [hf0]
+        | _ => simp at hprep
+      have hgb : pi.groupsBad = false := by simpa using hgb
+      rw [runPipeline_eq n prog pi pd s hp hgb]
+      simp only []
       generalize prepareContext pd pi { s with stack := pi.name :: s.stack } = p at hprep
       obtain ⟨s1, r⟩ := p
       cases r with
@@ -240,7 +261,7 @@ theorem runGroups_stack (fuel : Nat) (prog : Program) (pipe : String) (gs : List
 /-- where an error result of `_run_pipeline` comes from, down to the main phase of `run_step_groups`
     and the failure handler (`runPipeline_err_origin` + `runGroups_err_origin` of C01). -/
 theorem runPipeline_err_after_handler (fuel : Nat) (prog : Program) (pi : PipeInst) (s s' : St)
-    (e : ExcV) (h : Bool) (hr : runPipeline fuel prog pi s = (s', .err e h)) :
+    (e : ExcV) (h : Bool) (hgb : pi.groupsBad = false) (hr : runPipeline fuel prog pi s = (s', .err e h)) :
     (prog.find? pi.name = none ∧ s'.ctx = s.ctx) ∨
     (∃ pd n s1 s2, fuel = n + 1 ∧ prog.find? pi.name = some pd ∧
         prepareContext pd pi { s with stack := pi.name :: s.stack } = (s1, .err e h) ∧
@@ -264,13 +285,13 @@ theorem runPipeline_err_after_handler (fuel : Nat) (prog : Program) (pi : PipeIn
       have : s' = (raiseNew s "pypyr.errors.PipelineNotFoundError" "~pipeline not found").1 := by rw [hr]
       rw [this]; rfl
     | some pd =>
-      rcases runPipeline_err_origin n prog pi pd s s' e h hp hr with ⟨s1, s2, h1, h2, h3⟩ | ⟨s0, s2, h1, h2, h3⟩
+      rcases runPipeline_err_origin n prog pi pd s s' e h hp hgb hr with ⟨s1, s2, h1, h2, h3⟩ | ⟨s0, s2, h1, h2, h3⟩
       · exact .inr (.inl ⟨pd, n, s1, s2, rfl, rfl, h1, h2, h3⟩)
       · refine .inr (.inr ?_)
         cases n with
         | zero => unfold runGroups at h2; simp at h2
         | succ m =>
-          have hne := effectiveGroups_nonempty pi
+          have hne := effectiveGroups_nonempty pi hgb
           generalize hgs : (effectiveGroups pi).1 = gs at h2 hne
           cases gs with
           | nil => exact absurd rfl hne
